@@ -29,8 +29,10 @@ func init() {
 
 func plainDef() *lexer.StatefulDefinition {
 	return lexer.MustStateful(lexer.Rules{
-		"Root": {{Name: "Open", Pattern: `<(\w+)>`, Action: lexer.Push("Body")}, {Name: "WS", Pattern: `\s+`}},
+		"Root": {{Name: "Open", Pattern: `<(\w+)>`, Action: lexer.Push("Body")}, {Name: "QOpen", Pattern: `([a-z])(["'])`, Action: lexer.Push("Quoted")}, {Name: "WS", Pattern: `\s+`}},
 		"Body": {{Name: "End", Pattern: `</\1>`, Action: lexer.Pop()}, {Name: "Text", Pattern: `[^<]+`}},
+		// the closing rule refers to two groups of the opening rule
+		"Quoted": {{Name: "QClose", Pattern: `\2\1`, Action: lexer.Pop()}, {Name: "QText", Pattern: `[^"']+`}, {Name: "Quote", Pattern: `["']`}},
 	})
 }
 
@@ -43,7 +45,7 @@ func nulDef() *lexer.StatefulDefinition {
 	})
 }
 
-var useInput = map[string]string{"A": "<a>t</a>", "B": "<b>t</b>", "N1": "a\x00bta\x00b", "N2": "xa\x00bta"}
+var useInput = map[string]string{"A": "<a>t</a>", "B": "<b>t</b>", "N1": "a\x00bta\x00b", "N2": "xa\x00bta", "D1": `a"hi"a`, "D2": `b"hi"b`}
 
 // lexString lexes on the calling goroutine (the gate hooks identify processes by goroutine).
 func lexString(def lexer.Definition, in string) (res string) {
@@ -250,7 +252,7 @@ func concReplay(args []string) error {
 
 // conc-history: every order of earlier sequential calls on ONE definition must leave each call's result unchanged.
 func concHistory(args []string) error {
-	uses := [][]string{{"A", "B"}, {"N1", "N2"}}
+	uses := [][]string{{"A", "B", "D1", "D2"}, {"N1", "N2"}}
 	for _, set := range uses {
 		for _, first := range set {
 			for _, second := range set {
@@ -272,7 +274,68 @@ func concHistory(args []string) error {
 			}
 		}
 	}
+	// results handed out earlier must not change when the parser is used again (no aliasing of reused storage)
+	for _, e := range examples() {
+		if e.name != "expr" {
+			continue
+		}
+		first, err := e.parseRaw("(1 + x) * 2")
+		if err != nil {
+			fmt.Printf("MISMATCH\tretained result: first parse failed: %v\n", err)
+			break
+		}
+		before := fmt.Sprintf("%#v", exprTokens(first))
+		for i := 0; i < 50; i++ {
+			_, _ = e.parseRaw("9 9 9 9 9 9 9 9 9 9 9 9 9")
+			_, _ = e.parseRaw("(7)")
+		}
+		after := fmt.Sprintf("%#v", exprTokens(first))
+		status := "ok"
+		if before != after {
+			status = "MISMATCH"
+		}
+		fmt.Printf("%s\ttoken lists of an AST returned earlier, after 100 further parses on the same parser: %.80s vs %.80s\n", status, after, before)
+	}
 	return nil
+}
+
+// exprTokens collects the Tokens fields reachable from an expression AST.
+func exprTokens(v any) []string {
+	out := []string{}
+	var walkF func(f *exFactor)
+	var walkE func(e *exExpr)
+	walkF = func(f *exFactor) {
+		if f == nil {
+			return
+		}
+		for _, t := range f.Tokens {
+			out = append(out, fmt.Sprintf("%d:%s", t.Pos.Offset, t.Value))
+		}
+		walkE(f.Sub)
+		walkF(f.Neg)
+	}
+	walkE = func(e *exExpr) {
+		if e == nil {
+			return
+		}
+		terms := []*exTerm{e.Left}
+		for _, r := range e.Right {
+			terms = append(terms, r.Term)
+		}
+		for _, t := range terms {
+			if t == nil {
+				continue
+			}
+			walkF(t.Left)
+			for _, r := range t.Right {
+				walkF(r.Factor)
+			}
+		}
+	}
+	if e, ok := v.(*exExpr); ok {
+		walkE(e)
+	}
+	return out
 }
 
 // conc-stress <seed> <goroutines> <calls per goroutine>: mixed calls on shared parsers / definitions / the ebnf package
